@@ -614,6 +614,7 @@ static std::string call_content(const std::string& m, const Sx& cs) {
     return identity_of(*c);
   }
   if (m == "setidentities") { c->setidentities(); return pd(c); }
+  if (m == "setidentities_to") { c->setidentities(rd_ident(cs[A])); return pd(c); }
   if (m == "numfields") return std::to_string(c->numfields());
   if (m == "fieldindex") return std::to_string(c->fieldindex(unhex(cs[A])));
   if (m == "key") return hexs(c->key(to_i64(cs[A])));
